@@ -46,10 +46,20 @@ def rule_implicit_wiring(rep: Report, repo: Repo):
     rep.check(ulo == ["np.zeros(H.shape, dtype=bool)"], RULE, f"{MOD}::block_diagonalize use_linear_operator starts all-False over the block grid", str(ulo), loc(f))
     sets = [n for n in own_nodes(f) if isinstance(n, ast.Assign) and isinstance(n.targets[0], ast.Subscript)
             and norm(n.targets[0].value) == "use_linear_operator"]
+    from .sem import canon as _canon8
+    def last_block_is_operator(test):
+        """isinstance(H[-1, -1, *<zeroth order>], sparse.linalg.LinearOperator), the tested element possibly through a local"""
+        t = _canon8(resolved(test, {k_: v_ for k_, v_ in env_at(sets[0]._parent, f).items() if k_ != "H"}))
+        if not (isinstance(t, ast.Call) and call_name(t) == "isinstance" and len(t.args) == 2 and norm(t.args[1]) == "sparse.linalg.LinearOperator"):
+            return False
+        e = t.args[0]
+        if not (isinstance(e, ast.Subscript) and norm(e.value) == "H" and isinstance(e.slice, ast.Tuple) and len(e.slice.elts) == 3):
+            return False
+        a_, b_, z_ = e.slice.elts
+        zt = norm(z_.value) if isinstance(z_, ast.Starred) else ""
+        return norm(a_) == "-1" and norm(b_) == "-1" and (zt == "zero_order" or (zt.startswith("(0,) * ") and zt.endswith(".n_infinite")))
     ok = len(sets) == 1 and norm(sets[0].targets[0].slice) == "(-1, -1)" and norm(sets[0].value) == "True" \
-        and isinstance(sets[0]._parent, ast.If) and norm(sets[0]._parent.test) in (
-            "isinstance(H[-1, -1, *zero_order], sparse.linalg.LinearOperator)",
-            "isinstance(H[(-1, -1, *zero_order)], sparse.linalg.LinearOperator)")
+        and isinstance(sets[0]._parent, ast.If) and last_block_is_operator(sets[0]._parent.test)
     rep.check(ok, RULE, f"{MOD}::block_diagonalize marks exactly the (last, last) block as LinearOperator-valued, iff its zeroth order is one",
               norm(sets[0]._parent.test) if sets and isinstance(sets[0]._parent, ast.If) else "", loc(sets[0] if sets else f))
     # (d) solver construction and normalisation receive the implicit flag / both vector families
